@@ -292,6 +292,12 @@ class C15(core.Check):
             k = rng.choice([0, 1, 2, 2, 2, 3])
             vary[p] = rng.sample(SEL, k)
         vals = ['1', '2', '3'] if rng.random() < .5 else ['1', '2']
+        if rng.random() < .3:
+            # values that differ only in parameters, qvalues, element order or blanks: still DIFFERENT values of
+            # the selecting header (a cache key built from parsed header elements would merge them)
+            vals = rng.sample(['gzip', 'gzip;q=0', 'gzip;q=0.5', 'gzip, deflate', 'deflate, gzip', 'gzip,deflate',
+                               'a;x=1', 'a;x=2', 'a', 'a ;x=1', 'A'], rng.choice([2, 3, 4]))
+            self.count('structured-selecting-values')
         if rng.random() < .08:
             vals = vals + rng.sample(SEL, 1)
         base = {h: rng.choice(vals) for h in SEL}
